@@ -9,6 +9,10 @@
      4  a quota whose limit was never lowered (and whose usage only ever came through admission)
         shows used above max in a declared dimension
      5  the runtime limit reported for a well-formed quota is above its max
+     6  a quota's reported used (or non-preemptible used) differs from the sum of the masked requests
+        of the pods that are currently assigned in its subtree — assigned according to the HISTORY
+        and the verdicts the implementation itself gave.  (Without this, "used <= max" and the
+        admission clauses would be about whatever figure the implementation reports.)
      3  (decided separately by [check_np], after all the others passed) a non-preemptible pod was
         admitted although non-preemptible usage + request passes min in a dimension the quota
         declares, a dimension MISSING from min counting as min = 0 (the code skips such dimensions:
@@ -151,9 +155,25 @@ Definition check_attempt (cfg : config) (st : state) (id : Z) (ob : obs) : Z :=
     end
   end.
 
-(* [wf]: every operation so far was well-formed ([op_okb]); only then is clause 4 promised *)
+(* the state after [o] when the implementation answered [status] to the admission question: the
+   pod is charged iff the IMPLEMENTATION admitted it (on the model's own traces this is [step]) *)
+Definition force (cfg : config) (st : state) (o : op) (status : Z) : state :=
+  match o with
+  | OAttempt id =>
+      match find_pod id (pods st) with
+      | Some p => apply_attempt st p status
+      | None => st
+      end
+  | _ => fst (step cfg st o)
+  end.
+
+Definition usage_exactb (st' : state) (q : quota) : bool :=
+  vec_eqb (q_used q) (vmk (exp_used st' q)) && vec_eqb (q_npused q) (vmk (exp_npused st' q)).
+
+(* [wf]: every operation so far was well-formed ([op_okb]); only then are clauses 4 and 6 promised *)
 Definition check_dump (wf : bool) (st' : state) (ob : obs) : Z :=
   if negb (eq_ids (map fst (o_dump ob)) (map q_id (quotas st'))) then 9
+  else if wf && negb (forallb (usage_exactb st') (sync (quotas st') (o_dump ob))) then 6
   else if wf && negb (forallb (fun q => q_taint q || used_le_maxb q (q_used q))
                               (sync (quotas st') (o_dump ob))) then 4
   else 0.
@@ -163,7 +183,7 @@ Definition check_op (cfg : config) (wf : bool) (st : state) (o : op) (ob : obs) 
            | OAttempt id | OCheck id => check_attempt cfg st id ob
            | _ => 0
            end in
-  if negb (c =? 0) then c else check_dump wf (fst (step cfg st o)) ob.
+  if negb (c =? 0) then c else check_dump wf (force cfg st o (o_status ob)) ob.
 
 Fixpoint check (cfg : config) (wf : bool) (st : state) (sn : snap) (prev : list (Z * (vec * vec)))
          (ops : list op) (os : list obs) : Z :=
@@ -174,7 +194,7 @@ Fixpoint check (cfg : config) (wf : bool) (st : state) (sn : snap) (prev : list 
     let wf' := wf && op_okb st1 sn o in
     let c := check_op cfg wf' st1 o ob in
     if negb (c =? 0) then c
-    else check cfg wf' (fst (step cfg st1 o)) (track cfg st1 sn o) (o_dump ob) ops' os'
+    else check cfg wf' (force cfg st1 o (o_status ob)) (track cfg st1 sn o) (o_dump ob) ops' os'
   | _, _ => 9
   end.
 
@@ -190,10 +210,12 @@ Definition attempt_holds (cfg : config) (st : state) (id : Z) (ob : obs) : Prop 
     /\ (o_status ob = 1 -> ~ admissible (chk_parent cfg) p q anc lim)
     /\ (rt_on cfg = true -> forall a, In a (q :: anc) -> quota_okb a = true -> used_le_max a (lim a)).
 Definition dump_holds (st' : state) (ob : obs) : Prop :=
-  forall q, In q (sync (quotas st') (o_dump ob)) -> q_taint q = false -> used_le_max q (q_used q).
+  forall q, In q (sync (quotas st') (o_dump ob)) ->
+    (forall d, vget (q_used q) d = exp_used st' q d /\ vget (q_npused q) d = exp_npused st' q d)
+    /\ (q_taint q = false -> used_le_max q (q_used q)).
 Definition step_holds (cfg : config) (wf : bool) (st : state) (o : op) (ob : obs) : Prop :=
   (forall id, o = OAttempt id \/ o = OCheck id -> attempt_holds cfg st id ob)
-  /\ (wf = true -> dump_holds (fst (step cfg st o)) ob).
+  /\ (wf = true -> dump_holds (force cfg st o (o_status ob)) ob).
 
 (* ---------- the non-preemptible clause, read strictly ---------- *)
 (* A dimension the quota declares (key of max) but for which min has no entry is guaranteed
@@ -233,7 +255,7 @@ Fixpoint check_np (cfg : config) (st : state) (prev : list (Z * (vec * vec)))
              | _ => 0
              end in
     if negb (c =? 0) then c
-    else check_np cfg (fst (step cfg st1 o)) (o_dump ob) ops' os'
+    else check_np cfg (force cfg st1 o (o_status ob)) (o_dump ob) ops' os'
   | _, _ => 0
   end.
 
